@@ -158,6 +158,24 @@ def gen(ctx):
             for kind in ("t", "s"):
                 for _ in range(60 if q else 1500):
                     add("ctor", N, prec, "b", [[fl_entry(rnd, prec, True) for _ in range(N)]], [fl_entry(rnd, prec, True) for _ in range(N)], kind)
+            # rare value classes, on purpose: (a) SUBNORMAL matrix entries whose term is far from negligible because the vector
+            # component is huge; (b) transforms within a few ulp of the identity at coordinates where the difference is visible
+            mant, emin, big = (23, -149, (40, 110)) if prec == 32 else (52, -1074, (300, 900))
+            cvt = (lambda x: f32(x)) if prec == 32 else (lambda x: x)
+            eps = 2.0 ** -mant
+
+            def subn():
+                return rnd.choice([-1, 1]) * rnd.randrange(1 << (mant - 6), 1 << mant) * 2.0 ** emin
+            for _ in range(120 if q else 3000):
+                m = [cvt(rnd.choice([0.0, 1.0, -2.0, 0.5, subn(), subn()])) for _ in range(N * (N + 1))]
+                v = [cvt(rnd.choice([-1, 1]) * (1 + rnd.random()) * 2.0 ** rnd.randrange(*big)) for _ in range(N)]
+                add(rnd.choice(["apply", "layer"]), N, prec, "b", [m], v)
+                sc = [cvt(2.0 ** rnd.randrange(*big)) if i == j else 0.0 for i in range(N) for j in range(N + 1)]
+                add("chain", N, prec, "b", [m, sc], [cvt(rnd.choice([1.0, -1.0, 0.5, 3.0])) for _ in range(N)])
+            for _ in range(120 if q else 3000):
+                m = [(1.0 if i == j else 0.0) + rnd.choice([0.0, 0.0, eps, -eps, eps / 2, -eps / 2, 2 * eps, eps / 4]) for i in range(N) for j in range(N + 1)]
+                v = [cvt(rnd.choice([0.0, -0.0, 2.0 ** -10, -2.0 ** -10, 1.0, 2.0 ** 20, -2.0 ** 20, 3.0, rnd.uniform(-1, 1)])) for _ in range(N)]
+                add(rnd.choice(["apply", "layer", "layer"]), N, prec, "b", [[cvt(x) for x in m]], v)
     return cases
 
 
